@@ -47,16 +47,18 @@ def unit():
     for n in exacts:
         props = ["C09", "C04"] + (["C13"] if "keyid" in n else [])
         hs.append(Harness(n, props, complete=False, bound=f"own header + all ASCII bodies of length {n.rsplit('_', 1)[1]}", functions=fn, timeout=1500,
-                          tier="thorough" if n in ("exact_keyid_sid_v4_43", "exact_keyid_pid_v3_45") else "quick",
+                          tier="quick" if n in ("exact_keytext_local_v4_4", "exact_keytext_secret_v4_6", "exact_pie_local_v4_4", "exact_pw_local_v4_4", "exact_seal_v4_4", "exact_keyid_lid_v4_44", "exact_keyid_lid_v4_4") else "thorough",
                           desc="accepted => Display gives back exactly the string (real base64 code)"))
     for n in ["binding_keytext_local_v4", "binding_keytext_public_v1", "binding_keytext_secret_v3", "binding_keyid_lid_v4", "binding_keyid_sid_v2", "binding_keyid_pid_v3",
               "binding_pie_local_v4", "binding_pie_secret_v4", "binding_pw_local_v4", "binding_pw_secret_v4", "binding_seal_v4"]:
         hs.append(Harness(n, ["C10", "C09", "C04"], complete=False, bound="all ASCII strings of one length (header + 3 characters)", functions=fn, timeout=1500,
+                          tier="quick" if n in ("binding_keytext_local_v4", "binding_keytext_public_v1", "binding_keyid_lid_v4", "binding_pie_secret_v4", "binding_pw_local_v4", "binding_seal_v4") else "thorough",
                           desc="accepted => starts with own version+kind header; body is the whole remainder (base64 decoder by contract)"))
     hs.append(Harness("token_parse_concrete", ["C09", "C10", "C01", "C04"], complete=False, bound="12 concrete token strings (bounded stand-in, not a proof)", functions=fn,
                       desc="token FromStr structure on concrete strings: first-dot split, trailing dot, extra segments, foreign headers, padding"))
     for n in ["token_display_local_4_3", "token_display_public_2_0", "token_display_local_0_1"]:
         hs.append(Harness(n, ["C09", "C01"], complete=False, bound="payload/footer lengths as named; contents symbolic", functions=fn, timeout=1500,
+                          tier="quick" if n == "token_display_local_4_3" else "thorough",
                           desc="token Display == header || b64(payload) [. b64(footer)]"))
     hs.append(Harness("keyid_eq_ord_hash_agree_with_bytes", ["C13"], functions=fn, timeout=900, path="paserk::id::verif",
                       desc="Eq / Ord / Hash / Clone of KeyId agree with its 33 bytes, for all pairs of ids (loop bound 33: complete)"))
@@ -65,7 +67,7 @@ def unit():
     hs.append(Harness("canary_text", ["C09", "C10"], expect="fail"))
     return Unit(
         name="u3_text", members=["paseto-core"], package="paseto-core",
-        inject=[("paseto-core/src/base64.rs", "units/u2_base64/harness.rs"), (E, "units/u3_text/harness.rs"), ("paseto-core/src/paserk/id.rs", "units/u3_text/keyid.rs")], harness_path="encodings::verif", allow_unsafe=True,
+        inject=[("paseto-core/src/base64.rs", "units/u2_base64/harness.rs"), (E, "units/u3_text/harness.rs"), ("paseto-core/src/paserk/id.rs", "units/u3_text/keyid.rs")], quick_cap=26, harness_path="encodings::verif", allow_unsafe=True,
         contracts="units/u2_base64/contracts.json",
         kani_flags=["-Z", "function-contracts", "-Z", "stubbing", "--no-assertion-reach-checks"], harnesses=hs, pre_build=extract_headers,
         assumptions=["strings are ASCII (non-ASCII bytes are covered at the base64 layer, unit u2_base64, which treats bytes individually)"],
